@@ -131,16 +131,25 @@ func uniqifyName(definitions spec.Definitions, name string) (string, bool) {
 		return name, isOAIGen
 	}
 
+	// the suffixed name must be unique up to letter case as well
+	known := func(candidate string) bool {
+		for k := range definitions {
+			if strings.EqualFold(k, candidate) {
+				return true
+			}
+		}
+
+		return false
+	}
+
 	name += "OAIGen"
 	isOAIGen = true
 	var idx int
 	unique := name
-	_, known := definitions[unique]
 
-	for known {
+	for known(unique) {
 		idx++
 		unique = fmt.Sprintf("%s%d", name, idx)
-		_, known = definitions[unique]
 	}
 
 	return unique, isOAIGen
